@@ -146,6 +146,32 @@ type scenarioData struct {
 	Requested  []uint64      `json:"requested"`
 	Answers    [][][2]uint64 `json:"answers"`
 	AnswersIdx [][][2]uint64 `json:"answers_idx"`
+	// cache history scenarios: every completed operation on a tracked root and every clean
+	History []histOp `json:"history,omitempty"`
+}
+
+// histOp is one completed operation of an observed concurrent history (coq/Model/C17_Cache.v, record hop).
+type histOp struct {
+	Kind  uint64 `json:"kind"`  // 0 set (SetBlockRootToSlot / block event), 1 lookup (BlockRootToSlot), 2 clean
+	Key   uint64 `json:"key"`   // number of the root
+	Val   uint64 `json:"val"`   // set: slot; clean: minimum slot; lookup: the slot the node answers (if Fill)
+	Res   int64  `json:"res"`   // lookup: slot returned, -1 = error
+	Fill  bool   `json:"fill"`  // lookup: the node knows the root
+	Asked bool   `json:"asked"` // lookup: the node was asked (the read section missed)
+	Inv   uint64 `json:"inv"`   // stamp taken before the call
+	Resp  uint64 `json:"resp"`  // stamp taken after the return
+}
+
+func historyTerm(h []histOp) string {
+	items := make([]string, 0, len(h))
+	for _, o := range h {
+		res := None()
+		if o.Res >= 0 {
+			res = Some(N(uint64(o.Res)))
+		}
+		items = append(items, App("mk_hop", N(o.Kind), N(o.Key), N(o.Val), res, Bool(o.Fill), Bool(o.Asked), N(o.Inv), N(o.Resp)))
+	}
+	return List(items)
 }
 
 func parseData(text string) *scenarioData {
@@ -336,13 +362,17 @@ func TestC17(t *testing.T) {
 			d = &scenarioData{}
 		} else {
 			col.Count("answers:" + n)
+			if len(d.History) > 0 {
+				col.Count("history:" + n)
+			}
 		}
 		id := col.NextID()
 		col.Add(Case{
 			Term: Record("c_id", N(id), "c_service", fmt.Sprintf("%q", scenarios[n].service), "c_scenario", fmt.Sprintf("%q", n),
 				"c_race", Bool(o.race), "c_hang", Bool(o.hang), "c_crash", Bool(o.crash),
 				"c_listings", nLists(d.Listings), "c_active", nList(d.Active), "c_requested", nList(d.Requested),
-				"c_answers", answerLists(d.Answers), "c_answers_idx", answerLists(d.AnswersIdx)),
+				"c_answers", answerLists(d.Answers), "c_answers_idx", answerLists(d.AnswersIdx),
+				"c_history", historyTerm(d.History)),
 			Key: fmt.Sprintf("%s#%d", n, reps[n]), Nontrivial: true, Tags: []string{"scenario:" + n, "service:" + scenarios[n].service},
 			Sample: map[string]any{"input": in, "observed": map[string]any{"race": o.race, "hang": o.hang, "crash": o.crash, "report": o.report, "data": o.data}},
 		})
